@@ -1,9 +1,9 @@
 package props
 
 import (
+	"crypto/ecdsa"
 	"crypto/ed25519"
 	"crypto/elliptic"
-	"crypto/ecdsa"
 	"crypto/rand"
 	"crypto/rsa"
 	"crypto/x509"
@@ -89,7 +89,6 @@ func crashBytes(b []byte) string {
 	}
 	return ""
 }
-
 
 // crashMsg feeds one message to every message-level entry point; returns the first crash.
 // resp, when non-nil, scripts collateral so that the deeper verification paths run.
@@ -453,12 +452,12 @@ func c10(x *mon.Ctx) {
 			p = crashMsg(m, nil)
 		} else {
 			for epn, f := range map[string]func(){
-				"abi.QuoteToAbiBytes":                 func() { _, _ = abi.QuoteToAbiBytes(q) },
-				"verify.TdxQuote":                     func() { _ = verify.TdxQuote(q, baseOpts()) },
-				"verify.ExtractChainFromQuote":        func() { _, _ = verify.ExtractChainFromQuote(q) },
+				"abi.QuoteToAbiBytes":                     func() { _, _ = abi.QuoteToAbiBytes(q) },
+				"verify.TdxQuote":                         func() { _ = verify.TdxQuote(q, baseOpts()) },
+				"verify.ExtractChainFromQuote":            func() { _, _ = verify.ExtractChainFromQuote(q) },
 				"verify.SupportedTcbLevelsFromCollateral": func() { _, _, _ = verify.SupportedTcbLevelsFromCollateral(q, baseOpts()) },
-				"validate.TdxQuote":                   func() { _ = validate.TdxQuote(q, &validate.Options{}) },
-				"rtmr.GetRtmrsFromTdQuote":            func() { _, _ = rtmr.GetRtmrsFromTdQuote(q) },
+				"validate.TdxQuote":                       func() { _ = validate.TdxQuote(q, &validate.Options{}) },
+				"rtmr.GetRtmrsFromTdQuote":                func() { _, _ = rtmr.GetRtmrsFromTdQuote(q) },
 			} {
 				if pv, st := mon.Guard(f); pv != "" {
 					p = epn + " panics: " + pv + "\n" + st
@@ -472,13 +471,13 @@ func c10(x *mon.Ctx) {
 	}
 	// nil options / nil policy
 	for name, f := range map[string]func(){
-		"verify.TdxQuote(nil options)":             func() { _ = verify.TdxQuote(valid, nil) },
-		"verify.RawTdxQuote(nil options)":          func() { _ = verify.RawTdxQuote(cs.Quote, nil) },
-		"validate.TdxQuote(nil options)":           func() { _ = validate.TdxQuote(valid, nil) },
-		"validate.RawTdxQuote(nil options)":        func() { _ = validate.RawTdxQuote(cs.Quote, nil) },
-		"SupportedTcbLevelsFromCollateral(nil)":    func() { _, _, _ = verify.SupportedTcbLevelsFromCollateral(valid, nil) },
-		"validate.PolicyToOptions(nil)":            func() { _, _ = validate.PolicyToOptions(nil) },
-		"validate.PolicyToOptions(empty)":          func() { _, _ = validate.PolicyToOptions(&ccpb.Policy{}) },
+		"verify.TdxQuote(nil options)":          func() { _ = verify.TdxQuote(valid, nil) },
+		"verify.RawTdxQuote(nil options)":       func() { _ = verify.RawTdxQuote(cs.Quote, nil) },
+		"validate.TdxQuote(nil options)":        func() { _ = validate.TdxQuote(valid, nil) },
+		"validate.RawTdxQuote(nil options)":     func() { _ = validate.RawTdxQuote(cs.Quote, nil) },
+		"SupportedTcbLevelsFromCollateral(nil)": func() { _, _, _ = verify.SupportedTcbLevelsFromCollateral(valid, nil) },
+		"validate.PolicyToOptions(nil)":         func() { _, _ = validate.PolicyToOptions(nil) },
+		"validate.PolicyToOptions(empty)":       func() { _, _ = validate.PolicyToOptions(&ccpb.Policy{}) },
 		"validate.PolicyToOptions(nil sub-policies)": func() {
 			_, _ = validate.PolicyToOptions(&ccpb.Policy{HeaderPolicy: nil, TdQuoteBodyPolicy: &ccpb.TDQuoteBodyPolicy{}})
 		},
